@@ -25,10 +25,10 @@ type Origin struct {
 
 type Flow struct {
 	P            *Prog
-	ExpandParams bool // join arguments over in-package call sites for parameters
-	ThroughCalls map[string]bool // qualified callee names summarised by their return values
-	ThroughInPkg bool            // summarise every in-package static callee by its return values
-	StopAtField  func(*types.Var) bool // if set and true, a load of that field is a leaf (default: all field loads are leaves)
+	ExpandParams bool                     // join arguments over in-package call sites for parameters
+	ThroughCalls map[string]bool          // qualified callee names summarised by their return values
+	ThroughInPkg bool                     // summarise every in-package static callee by its return values
+	StopAtField  func(*types.Var) bool    // if set and true, a load of that field is a leaf (default: all field loads are leaves)
 	CallerFilter func(*ssa.Function) bool // if set, only call sites in these functions contribute arguments to a parameter
 	maxDepth     int
 }
